@@ -368,9 +368,7 @@ class Monitor:
                     e.update(out="raised", i1=psr._index, steps=mon.p_steps - st0, errs=len(psr.errors) - er0)
                     rec["inner"].append(e)
                     raise
-                except StepBudget:
-                    raise
-                except _Watchdog:
+                except (StepBudget, _Watchdog):
                     raise
                 except Exception:  # noqa
                     e.update(out="internal", i1=psr._index, steps=mon.p_steps - st0, errs=len(psr.errors) - er0)
@@ -395,6 +393,7 @@ class Monitor:
                 rec.update(out="raised")
                 raise
             except (StepBudget, _Watchdog):
+                rec.update(out="budget")
                 raise
             except Exception:  # noqa
                 rec.update(out="internal")
@@ -845,8 +844,30 @@ UNI = ["é", "ß", "İ", "Ω", "€", " ", " ", "​", " ", "日本", "😀
        "\\", "'", '"', "`", "$", "$$", "/*", "*/", "--", "#", "{{", "}}", "{%", "%}", "0x", "1e", "e'", "N'", "b'", "@@", "::", "٠", "ａ", "＇"]
 
 
+ELEMENT_TEMPLATES = [
+    "INSERT INTO t (a, {R}) VALUES (1)", "INSERT INTO t ({R}, a) VALUES (1, 2)", "INSERT INTO t VALUES (1, {R})",
+    "CREATE TABLE t (a INT, {R})", "CREATE TABLE t ({R}, a INT)", "CREATE TABLE t (a INT {R}, b INT)", "CREATE TABLE t (a {R}, b INT)",
+    "CREATE TABLE t (a INT, CONSTRAINT c {R} (a))", "CREATE TABLE t (a INT, PRIMARY KEY (a, {R}))", "CREATE TABLE t (a INT {R} {R})",
+    "CREATE TABLE t (a INT, FOREIGN KEY (a) REFERENCES u ({R}))", "CREATE TABLE t (a INT) PARTITION BY ({R}, a)",
+    "SELECT a, {R} FROM t", "SELECT f(a, {R})", "SELECT * FROM t WHERE a IN (1, {R})", "SELECT * FROM t GROUP BY a, {R}",
+    "SELECT * FROM t ORDER BY a, {R}", "SELECT a FROM t, {R}", "SELECT * FROM t JOIN u USING (a, {R})", "SELECT CAST(a AS {R})",
+    "SELECT x OVER (PARTITION BY a, {R})", "SELECT STRUCT<a INT, {R}>(1)", "WITH {R} AS (SELECT 1) SELECT 1", "WITH a AS (SELECT 1), {R} SELECT 1",
+    "ALTER TABLE t ADD COLUMN {R} INT", "ALTER TABLE t ADD COLUMN a INT, {R}", "UPDATE t SET a = 1, {R}", "MERGE INTO t USING u ON a WHEN MATCHED THEN UPDATE SET a = 1, {R}",
+    "COPY t {R}", "COPY t FROM 'x' WITH ({R})", "GRANT {R} ON t TO u", "GRANT SELECT, {R} ON t TO u", "CREATE INDEX i ON t (a, {R})", "VALUES (1, {R}), ({R})",
+    "SELECT * FROM t PIVOT(SUM(a) FOR b IN ({R}, 'x'))", "CREATE TABLE t (a INT) WITH (x = 1, {R})", "SET a = 1, {R}", "CALL p(1, {R})",
+]
+
+
 def gen_input(rng, gen: Gen, dialect_keywords=None):
     """returns (kind, sql)"""
+    k = rng.random()
+    if k < 0.1:
+        # reserved words / punctuation in element position of every list-shaped construct (_parse_csv element parsers)
+        tpl = rng.choice(ELEMENT_TEMPLATES)
+        pool = SOUP if dialect_keywords is None or rng.random() < 0.6 else dialect_keywords
+        while "{R}" in tpl:
+            tpl = tpl.replace("{R}", rng.choice(pool), 1)
+        return "reserved-element", tpl
     k = rng.random()
     base = gen.statement()
     if k < 0.18:
@@ -897,6 +918,26 @@ def gen_input(rng, gen: Gen, dialect_keywords=None):
 
 
 _KW_CACHE: dict = {}
+
+
+def element_words(dialect) -> list:
+    """words that start a constraint / property / statement parser of this dialect, plus punctuation: what a list element
+    parser may half-consume and give back"""
+    *_, Dialect, _ = sg()
+    pc = Dialect.get_or_raise(dialect or None).parser_class
+    words = set()
+    for table in ("CONSTRAINT_PARSERS", "PROPERTY_PARSERS", "SCHEMA_UNNAMED_CONSTRAINTS"):
+        for k in getattr(pc, table, ()) or ():
+            if isinstance(k, str) and k:
+                words.add(k.split(" ")[0])
+    words |= {"NOT", "NULL", ",", "(", ")", "/", "*", "SELECT", "FROM", "AS", "ON", "IN", "WITH", "CASE", "END", "BY", "SET", "VALUES", "."}
+    return sorted(words)
+
+
+def element_sweep(dialect):
+    for tpl in ELEMENT_TEMPLATES[:12]:
+        for w in element_words(dialect):
+            yield tpl.replace("{R}", w)
 
 
 def dialect_keywords(dialect):
@@ -1160,6 +1201,7 @@ def run_real_prog(prog, toks_ids, level, fuel):
     MON.install()
     MON.reset()
     MON.p_cap = 20000
+    MON.w_cap = 60000
     try:
         try:
             v = with_watchdog(lambda: interp(psr, prog, fuel, TT), 5.0)
@@ -1246,7 +1288,7 @@ def correspond_activations(chk: Check) -> list:
     gen = Gen(rng)
     ids = token_type_ids()
     dialects = all_dialects()
-    n_inputs = chk.pick(260, 4000)
+    n_inputs = chk.pick(400, 4000)
     lines, expect, meta = [], [], []
     bad_inputs = []
     contract_bad = 0
@@ -1255,6 +1297,7 @@ def correspond_activations(chk: Check) -> list:
     scan_lines, scan_expect, scan_meta = [], [], []
     rewinds_seen = {}
     t_start = time.time()
+    sweep: list = []
     for ii in range(n_inputs):
         d = rng.choice(dialects)
         lvl = rng.choice(LEVELS)
@@ -1262,6 +1305,13 @@ def correspond_activations(chk: Check) -> list:
         if time.time() - t_start > chk.pick(45, 600) or chk.corr_disagreements >= 5:
             chk.note(f"activation monitoring stopped early after {ii} inputs")
             break
+        if not sweep:
+            # list-shaped constructs with a constraint keyword in element position (the `_parse_csv` element parsers that
+            # half-consume and give back): all of them, first
+            sweep.extend(t.replace("{R}", w) for t in ELEMENT_TEMPLATES[:12]
+                         for w in ["NOT", "NULL", "DEFAULT", "PRIMARY", "CHECK", "UNIQUE", "REFERENCES", "CONSTRAINT", ",", ")", "AS", "COLLATE"])
+        if ii < len(sweep):
+            sql, d = sweep[ii], rng.choice(["", "", d])
         if ii % 9 == 0:
             sql = rng.choice(["SELECT 12abc, 1e, 3x FROM t", "SELECT $tag$ body $tag$, $1", "SELECT $a b$ x", "SELECT $9$", "SELECT $x", "SELECT 1_0f + 2d",
                               "SELECT $$ a $$ || $t$b$t$", "$", "$a", "$a$", "1a", "1a 2b$c$", "SELECT 0xfg, 0b12, 1.e5x"]) + (" " + sql if rng.random() < 0.5 else "")
@@ -1356,7 +1406,7 @@ def correspond_activations(chk: Check) -> list:
             size = len(tl)
             # ---- contracts (hypotheses of the *_any_method theorems), checked directly on the real activation
             problems = []
-            if a["out"] != "internal" and not (a["i0"] <= size and a["i1"] <= size):
+            if a["out"] not in ("internal", "budget") and not (a["i0"] <= size and a["i1"] <= size):
                 problems.append("cursor out of range")
             if a["kind"] == "try":
                 if (a["out"] in ("none", "falsy") or a["rt"]) and a["i1"] != a["i0"]:
@@ -1368,7 +1418,7 @@ def correspond_activations(chk: Check) -> list:
             for e in a["inner"]:
                 if e["out"] not in ("internal", "raised") and e["i1"] < e["i0"]:
                     problems.append("element / body method moved the cursor backwards")
-            if a["kind"] != "try" and a["out"] not in ("internal", "raised") and a["i1"] < a["i0"]:
+            if a["kind"] != "try" and a["out"] not in ("internal", "raised", "budget") and a["i1"] < a["i0"]:
                 problems.append("cursor moved backwards")
             if problems:
                 contract_bad += 1
@@ -1376,8 +1426,8 @@ def correspond_activations(chk: Check) -> list:
                                           {"sql": sql, "dialect": d, "level": lvl, "activation": {k: v for k, v in a.items() if k != "toks"}})
                 bad_inputs.append((sql, d, lvl))
                 continue
-            if a["out"] == "internal" or any(e["out"] == "internal" for e in a["inner"]):
-                continue  # leaks are the search oracle's business; the model glue is compared on non-leaking activations
+            if a["out"] in ("internal", "budget") or any(e["out"] == "internal" for e in a["inner"]):
+                continue  # leaks / exhausted budgets are the search oracle's business; the model glue is compared on the rest
             # ---- replay through the model glue
             if cur_tok_id != a["toks"]:
                 cur_tok_id = a["toks"]
@@ -1476,6 +1526,12 @@ def search(chk: Check, hints: list, budget_s: float) -> None:
             one(sql, d, l2, None, "hint")
     for sql, d, lvl, write in corpus:
         one(sql, d, lvl, write, "corpus")
+    # deterministic sweep: every constraint / property keyword in element position of column lists and schema definitions
+    for d in ["", rng.choice(dialects)]:
+        for i, sql in enumerate(element_sweep(d)):
+            if len(chk.violations) >= 8:
+                break
+            one(sql, d, LEVELS[1 + (i % 3)], None, "element-sweep")
     # a fixed number of inputs per tier (deterministic for a given VERIF_SEED), with the time budget as a safety cap
     n_inputs = int(os.environ.get("C05_INPUTS", "0")) or (chk.pick(2400, 70000) * (2 if chk.broken else 1))
     for _ in range(n_inputs):
